@@ -8,6 +8,7 @@ term = ["out", o] | ["hist", items] | ["call", st, lim] | ["addc", c, term] | ["
 lim  = None | ["int", z] | ["frac", n, d] | ["float", n, d] | ["bool", b] | ["other"]
 """
 import itertools
+import json
 from fractions import Fraction
 
 from common import chist, clist, cq, cz, cnat, copt, hist_items, qv
@@ -274,7 +275,9 @@ def run_mech_impl(mech, calls, fault=None, use_foreach=False, base_exception=Fal
     def invoke(i, lim):
         st = states[i]
         cb, names = fs[i]
-        srcs = [py_source(s) for s in st["srcs"]]
+        # identical descriptions denote ONE object passed in several positions (foreach(f, p, p))
+        built = {}
+        srcs = [built.setdefault(json.dumps(s, sort_keys=True), py_source(s)) for s in st["srcs"]]
         args = srcs[: st["npos"]]
         kw = {names[j]: srcs[j] for j in range(st["npos"], len(srcs))}
         sent = H(gens.py_hist_dict(st["sentinel"]))
